@@ -20,6 +20,7 @@
 #include <sys/wait.h>
 #include <signal.h>
 #include <vector>
+#include <sstream>
 
 // ---- promela mode -------------------------------------------------------------------
 // vectors: <text>\t<expected: integer | ERR>.  Every chunk of vectors is evaluated in a
@@ -113,10 +114,55 @@ static bool scaffoldMatch(const std::string& d, const std::string& n) {
 	return StateMachine::nameMatch(d, n);
 }
 
+// ---- foreign mode (C14) ------------------------------------------------------------------
+// every document is run to its first idle point and serialized; the text is then offered to a
+// fresh interpreter of every document: own text must be accepted, a foreign one rejected.
+static std::string slurp(const char* path) {
+	std::ifstream in(path);
+	std::stringstream ss;
+	ss << in.rdbuf();
+	return ss.str();
+}
+static int foreignMode(int argc, char** argv) {
+	setenv("USCXML_NOCACHE_FILES", "YES", 1);
+	FILE* devnull = fopen("/dev/null", "w");
+	int saved = dup(2);
+	if (devnull) dup2(fileno(devnull), 2);
+	std::vector<std::string> docs, states;
+	// interpreters are deliberately never destroyed here: tear-down is C10's subject
+	static std::vector<uscxml::Interpreter> keep;
+	for (int i = 2; i < argc; i++) docs.push_back(slurp(argv[i]));
+	for (size_t i = 0; i < docs.size(); i++) {
+		uscxml::Interpreter a = uscxml::Interpreter::fromXML(docs[i], "file:///verif/foreign" + std::to_string(i) + ".scxml");
+		uscxml::InterpreterState st = uscxml::USCXML_UNDEF;
+		for (int k = 0; k < 30 && st != uscxml::USCXML_IDLE && st != uscxml::USCXML_FINISHED; k++) st = a.step(0);
+		try { states.push_back(a.serialize()); } catch (...) { states.push_back(""); }
+		keep.push_back(a);
+	}
+	for (size_t i = 0; i < docs.size(); i++) {
+		for (size_t j = 0; j < docs.size(); j++) {
+			if (states[j].size() == 0) continue;
+			bool threw = false;
+			try {
+				uscxml::Interpreter b = uscxml::Interpreter::fromXML(docs[i], "file:///verif/foreign" + std::to_string(i) + ".scxml");
+				keep.push_back(b);
+				b.deserialize(states[j]);
+			} catch (...) { threw = true; }
+			if (i == j) { if (threw) printf("OWNFAIL %zu\n", i); }
+			else printf("%s doc=%zu state-of=%zu\n", threw ? "REJECTED" : "ACCEPTED", i, j);
+		}
+	}
+	printf("DONE %zu\n", docs.size());
+	fflush(stdout);
+	dup2(saved, 2);
+	_exit(0);
+}
+
 int main(int argc, char** argv) {
 	if (argc < 3) { fprintf(stderr, "usage: fn_replay <mode> <file>\n"); return 2; }
 	std::string mode = argv[1];
 	if (mode == "promela") return promelaMode(argv[2]);
+	if (mode == "foreign") return foreignMode(argc, argv);
 	std::ifstream in(argv[2]);
 	if (!in) { perror("open"); return 2; }
 	long n = 0, diffs = 0;
